@@ -82,6 +82,22 @@ class Exec:
     pass
 
 
+def resolve_names(scn):
+    """file names may contain `{pid}` (look-alikes of per-process temporary names): filled in by the
+    process that runs the schedule; the stored case keeps the placeholder so that it replays anywhere"""
+    import copy
+    pid = str(os.getpid())
+    if "{pid}" not in json.dumps(scn):
+        return scn
+    r = copy.deepcopy(scn)
+    fix = lambda n: n.replace("{pid}", pid)
+    r["files"] = {fix(n): v for n, v in r["files"].items()}
+    for ops in [r.get("setup") or []] + r["threads"]:
+        for op in ops:
+            op[1] = fix(op[1])
+    return r
+
+
 _COUNTER = [0]
 
 
@@ -91,6 +107,7 @@ def execute(scn, prefix, base, step_budget=400, strict=True):
     strict=False (recorded witnesses / replays, possibly made on another tree): a recorded choice
     that is not enabled here ends the replay of the list; the run continues with the default policy"""
     import klongpy.db.file_cache as fcm
+    scn = resolve_names(scn)
     _COUNTER[0] += 1
     root = os.path.join(base, f"r{_COUNTER[0]}")       # never reused: a leaked thread of an aborted run cannot touch it
     shutil.rmtree(root, ignore_errors=True)
@@ -108,6 +125,7 @@ def execute(scn, prefix, base, step_budget=400, strict=True):
     saved = {k: fcm.__dict__.get(k, None) for k in ("open", "os", "time")}
     had_open = "open" in fcm.__dict__
     ex = Exec()
+    ex.scn = scn
     ex.hist = []
     fc = None
     saved_df = None
@@ -615,6 +633,9 @@ def compare_model(scn, ex, reply):
 OLD, NEW6, XY = b"OLD".hex(), b"NEWNEW".hex(), b"XY".hex()
 
 
+LOOKALIKE_SUFFIXES = [".tmp", ".bak", "~", ".{pid}.tmp", ".new", ".lock"]
+
+
 def core_scenarios():
     """fixed scenarios run on every check: the witnesses of the known findings and the basic
     hazard-free races (two writers, writer vs reader of a cached file, eviction, new file)"""
@@ -648,6 +669,12 @@ def core_scenarios():
         ("newdir:update-d/a||update-d/b", S1([[["update", "d/a", NEW6, 0]], [["update", "d/b", XY, 1]]], files={})),
         ("newdir:update-d/a||update-d/b;get-d/a", S1([[["update", "d/a", NEW6, 1]], [["update", "d/b", XY, 0], ["get", "d/a"]]],
                                                      files={})),
+        # look-alike names: a file and what an implementation might use as its temporary / backup sibling
+        *[(f"lookalike{sfx}:update-k{sfx}||update-k;get-k{sfx}",
+           S1([[["update", "k" + sfx, NEW6, 0]], [["update", "k", XY, 0], ["get", "k" + sfx]]], files={}))
+          for sfx in LOOKALIKE_SUFFIXES],
+        ("lookalike.tmp:seq", S1([[["update", "k", XY, 1]], [["get", "k.tmp"], ["unload", "k.tmp"]]], files={"k": OLD},
+                                 setup=[["update", "k.tmp", NEW6, 0]])),
         # a getter parked between its stat calls and the lock while the file is replaced and dropped
         ("stat-gap:get||update;unload", S1([[["get", "f"]], [["update", "f", NEW6, 0], ["unload", "f"]]])),
         ("stat-gap:get||update-f;update-g(evicts)", S1([[["get", "f"]], [["update", "f", b"ABCD".hex(), 0], ["update", "g", b"GHIJ".hex(), 0]]],
@@ -662,8 +689,11 @@ def core_scenarios():
 
 def random_scenario(rng, nthreads=None):
     names = ["f"] if rng.random() < 0.5 else ["f", "g"]
-    if rng.random() < 0.2:
+    r = rng.random()
+    if r < 0.2:
         names = ["d/" + n for n in names]          # in a sub-directory (missing unless a file starts there)
+    elif r < 0.35:
+        names = ["k", "k" + rng.choice(LOOKALIKE_SUFFIXES)]     # a file and a temporary/backup look-alike
     maxmem = rng.choice([64, 64, 64, 6, 8])
     pool = [OLD, XY, b"".hex(), b"ABCDE".hex()]
     files = {n: rng.choice(pool) for n in names if rng.random() < 0.85}
@@ -765,6 +795,7 @@ def _winit(base):
 def check_execution(scn, ex, choices, drv, out):
     """oracle + classification + tie for one run; appends to the result dict `out`"""
     case = dict(kind="schedule", scenario=scn, choices=choices)
+    scn = getattr(ex, "scn", scn)          # names resolved for this process
     if scn.get("df"):           # table-merge layer: oracle only (pickled frames are outside the machine)
         fails = oracle_df(ex, scn)
         out["n"] += 1
@@ -977,8 +1008,9 @@ def replay(ctx, case):
         print("replay: schedule", [(st["tid"], st["label"]) for st in ex.trace])
         print("replay: history ", [(h["tid"], h["op"], h["inv"], h["resp"], h["res"]) for h in ex.hist])
         print("replay: final   ", dict(mem=ex.mem, entries=ex.entries, disk=ex.disk, status=ex.status))
+        scn = getattr(ex, "scn", scn)
         print("replay: hazards ", hazards(ex, scn))
-        print("replay: oracle  ", oracle(ex, scn))
+        print("replay: oracle  ", oracle_df(ex, scn) if scn.get("df") else oracle(ex, scn))
         if drv:
             print("replay: machine ", drv.ask(model_line(scn, ex)))
     finally:
